@@ -15,14 +15,14 @@ ALL_INV = ["TypeOK", "Sound_C01", "Sound_C02", "Sound_C03", "Sound_C04", "Sound_
 # per property: pair-focus dimensions (quick), option sets
 CFG = {
     "C01": dict(focus=["qsig", "ak", "bind", "qeSigner", "authLen", "extra", "leafId"], optset="levels", now=["set"]),
-    "C02": dict(focus=["leafPki", "interPki", "rootPki", "pool", "leafRole", "interSlot", "src", "rotVia"], optset="levels", now=["set"]),
+    "C02": dict(focus=["leafPki", "interPki", "rootPki", "pool", "leafRole", "interSlot", "src", "rotVia", "leafExtCritical"], optset="levels", now=["set"]),
     "C03": dict(focus=["tcbSigner", "tcbOver", "tcbExtra", "tcbHdr", "tcbMeta", "tcbContent", "modBranch",
                        "qeSignerDoc", "qeOver", "qeExtra", "qeHdr", "qeMeta", "qeContent", "sharedSigner"], optset="levels", now=["set"]),
-    "C04": dict(focus=["tcbContent", "modBranch", "tcbExtra"], optset="levels", now=["set"]),
-    "C05": dict(focus=["pckCrlRev", "rootCrlRev", "pckCrlSigner", "rootCrlSigner", "pckCrlFetch", "rootCrlDps", "serials"], optset="all", now=["set"]),
+    "C04": dict(focus=["tcbContent", "modBranch", "tcbExtra", "sgxOrder"], optset="levels", now=["set"]),
+    "C05": dict(focus=["pckCrlRev", "rootCrlRev", "pckCrlSigner", "rootCrlSigner", "pckCrlFetch", "rootCrlDps", "serials", "sharedSigner", "pool"], optset="all", now=["set"]),
     "C06": dict(focus=["time", "sharedSigner"], optset="levels", now=["set"]),
     "C07": dict(focus=["qeContent", "qeExtra"], optset="levels", now=["set"]),
-    "C11": dict(focus=["authLen", "extra", "trailer", "tcbContent", "modBranch", "qeContent", "pckCrlRev", "rootCrlRev", "rootCrlDps", "leafId", "serials", "sigShape", "sharedSigner", "src", "pool"],
+    "C11": dict(focus=["authLen", "extra", "trailer", "tcbContent", "modBranch", "qeContent", "pckCrlRev", "rootCrlRev", "rootCrlDps", "leafId", "serials", "sigShape", "sgxOrder", "sharedSigner", "src", "pool"],
                 optset="levels", now=["set", "unset"]),
     "C12": dict(focus=["pool", "interCN", "tcbHdr", "qeHdr", "pckCrlFetch", "rootCrlDps"], optset="all", now=["set", "unset"]),
 }
